@@ -1128,6 +1128,8 @@ val chunks_lin : nat -> nat -> n list -> n list list
 
 val run_check_rows_rfc : n list -> n list
 
+val run_spec_enc_from_C : n list -> n list
+
 type bvec = n list * n
 
 val bv_padding : n -> n
